@@ -1143,6 +1143,19 @@ pub fn run(report: &mut Report, replay: Option<&str>) {
         probe_child(spec);
     }
     pool::install_panic_hook();
+    // orchestration (replays, minimisation, Debug renderings) runs on a roomy stack; the cases
+    // of the exploration themselves run on the 8 MiB workers the depth probe was measured with
+    std::thread::scope(|scope| {
+        std::thread::Builder::new()
+            .stack_size(512 * 1024 * 1024)
+            .spawn_scoped(scope, || run_on_big_stack(report, replay))
+            .expect("cannot spawn the orchestration thread")
+            .join()
+            .expect("orchestration thread panicked");
+    });
+}
+
+fn run_on_big_stack(report: &mut Report, replay: Option<&str>) {
     let start = Instant::now();
     let thorough = report.is_thorough();
     let known = load_known();
@@ -1371,6 +1384,23 @@ pub fn run(report: &mut Report, replay: Option<&str>) {
         });
     }
     report.count("slowest_case_ms", slowest.as_millis() as u64);
+    // a case that exceeded the watchdog while 16 workers (and whatever else runs on the machine)
+    // competed for the CPU is re-run alone with a 6x limit before it is called a hang
+    let suspects: Vec<(Case, Failure)> = failures.iter().filter(|(_, f)| f.kind == "hang").cloned().collect();
+    failures.retain(|(_, f)| f.kind != "hang");
+    for (case, failure) in suspects {
+        report.count("watchdog_suspects", 1);
+        let case2 = case.clone();
+        match pool::run_limited_for(Duration::from_secs(6 * HANG_SECS), move || run_case(&case2)) {
+            None => failures.push((case, failure)),
+            Some(result) => {
+                report.count("watchdog_suspects_finished_when_rerun_alone", 1);
+                for f in result.failures {
+                    failures.push((case.clone(), f));
+                }
+            }
+        }
+    }
     if std::env::var("DLV_C12_DEBUG").is_ok() {
         let mut seen: Vec<String> = Vec::new();
         for (case, failure) in &failures {
